@@ -15,6 +15,7 @@ type seed struct {
 	File       string // path relative to the repository root
 	Old, New   string // Old must occur exactly once in File
 	Expect     string // prefix of the rule expected to fire ("" = any rule of the property)
+	Neg        bool   // negative control: a behaviour-preserving edit; the check must stay silent
 }
 
 type seedResult struct {
@@ -115,6 +116,25 @@ func thoroughSeedsOnly(repo, id string, baseKeys []string) (map[string]interface
 				fired = o.Key()
 				break
 			}
+		}
+		if s.Neg {
+			any := ""
+			for _, o := range cm.Obs {
+				if o.Status == "violated" && !contains(baseKeys, o.Key()) {
+					any = o.Key()
+				}
+			}
+			if any == "" {
+				killed++
+				results = append(results, seedResult{Name: s.Name, Status: "silent (negative control)"})
+			} else {
+				survived++
+				results = append(results, seedResult{Name: s.Name, Status: "FALSE-ALARM", FiredBy: trunc(any)})
+				failures = append(failures, "negative control raised an alarm: "+s.Name+" → "+any)
+			}
+			pm, cm = nil, nil
+			runtime.GC()
+			continue
 		}
 		if fired != "" {
 			killed++
